@@ -179,6 +179,7 @@ func init() {
 			fr.m.stdout = nil
 			return nil
 		},
+		"verifStdoutBroken": func(fr *frame, args []value) value { fr.m.stdoutBroken = true; return nil },
 		"verifStdout":       func(fr *frame, args []value) value { return append([]value(nil), fr.m.stdout...) },
 		"verifRestoreStdio": noop,
 		"verifTempDir":      func(fr *frame, args []value) value { return "/verif-scratch-dir" },
